@@ -156,6 +156,9 @@ func init() {
 		},
 		"vghostGet": func(x *X, fn *ssa.Function, a []Value) Value {
 			n := x.strArg(a[0])
+			if l, ok := x.ghost[n].([]Value); ok {
+				return x.c64(uint64(len(l)))
+			}
 			c, _ := x.ghost["cnt:"+n].(*T)
 			if c == nil {
 				c = x.c64(0)
@@ -394,6 +397,16 @@ func init() {
 		},
 		ModulePath + "/protocol/transport/tcp.flagString": func(x *X, fn *ssa.Function, a []Value) Value {
 			return x.strConst("<flags>") // only used in log output
+		},
+		ModulePath + "/protocol/transport/tcp.timeStamp": func(x *X, fn *ssa.Function, a []Value) Value {
+			// coarse cookie clock: an arbitrary 8-bit slot number (harnesses constrain successive readings)
+			return x.B.ZExt(x.input(x.inputName("cookiets"), 8), 32)
+		},
+		"(*" + ModulePath + "/protocol/transport/tcp.listenContext).cookieHash": func(x *X, fn *ssa.Function, a []Value) Value {
+			// SHA-1 is an uninterpreted function of (ports, addresses-as-given, ts, nonce index)
+			id := a[1].(StructVal)
+			ports := x.B.Concat(id.F[0].(*T), id.F[2].(*T))
+			return x.B.UF("cookieHash", 32, ports, a[2].(*T), x.B.Extract(a[3].(*T), 7, 0))
 		},
 		"internal/abi.NoEscape": func(x *X, fn *ssa.Function, a []Value) Value { return a[0] },
 		"(*" + ModulePath + "/protocol.StatCounter).Increment":   nop,
